@@ -17,7 +17,7 @@ for d in seeded/C*-*/; do
   s=$(basename $d); p=${s%%-*}
   if [ -n "$SEEDS" ] && ! echo " $SEEDS " | grep -q " $s "; then continue; fi
   checks="$p $(grep "^$s " seeded/EXTRA 2>/dev/null | cut -d' ' -f2-)"
-  for c in $checks; do echo "$s $c"; done
+  for c in $(echo $checks | tr " " "\n" | sort -u); do echo "$s $c"; done
 done > /tmp/seed_jobs.txt
 cat /tmp/seed_jobs.txt | xargs -P ${SEED_P:-6} -L 1 bash -c '/verif/tools/seed_run.sh $0 $1' | tee $OUT.tmp
 if [ -n "$SEEDS" ] && [ -f $OUT ]; then
